@@ -56,6 +56,22 @@ def run(ctx):
                         stream += w.lookup(2, b'/other') if kind == 'lkp' else w.tname(2, b'oth')
                     stream.append(c)
                 cases.append(('%s_%d_%d' % (kind, n, gaps), w, stream))
+    # a text whose LAST records were lost (its first record alone), then - on the same thread - a complete text of the same kind:
+    # the complete one is reported with exactly its own text (the first record of a text starts it afresh)
+    for n in lens:
+        for kind in ('lkp', 'gstr', 'tname', 'tnamep'):
+            w = World(rnd, ts='any')
+            g = gen.ProgGen(w, rnd)
+            stale = gen.pos_text(rnd, 60, 150)
+            txt = gen.pos_text(rnd, n, n)
+            if kind == 'lkp':
+                ch0, ch = w.lookup(1, stale), w.lookup(1, txt)
+            elif kind == 'gstr':
+                ch0, ch = w.gstr(1, stale, 30 + n), w.gstr(1, txt, 40 + n)
+            else:
+                ch0, ch = w.tname(1, stale, prev=(kind == 'tnamep')), w.tname(1, txt, prev=(kind == 'tnamep'))
+            stream = [ch0[0]] + (g.ord_single(1) if n % 2 else []) + list(ch)
+            cases.append(('%s_stale_%d' % (kind, n), w, stream))
     # every path-taking decoder x number of lookups x gap records
     names = [n for n, a in sorted(AUDIT.items()) if a.get('cls') in PATH_CLASSES]
     nl_choices = [0, 1, 2, 3, 6, 7]
